@@ -70,6 +70,18 @@ class Facts:
             is_none = (v == "none")
             # the test is true on `notnone_label`: e.g. `x is not None` -> label 'T' means not None
             return (not is_none) if notnone_label == "T" else is_none
+        if isinstance(x, ast.Compare) and len(x.ops) == 1 and isinstance(x.left, ast.Call) and isinstance(x.left.func, ast.Name) and x.left.func.id == "len" \
+                and len(x.left.args) == 1 and isinstance(x.comparators[0], ast.Constant) and x.comparators[0].value in (0, 1):
+            t = self.truth(x.left.args[0])
+            if t is None:
+                return None
+            op, c = x.ops[0], x.comparators[0].value
+            nonempty = {(ast.Gt, 0): True, (ast.GtE, 1): True, (ast.NotEq, 0): True, (ast.Eq, 0): False, (ast.Lt, 1): False, (ast.LtE, 0): False}.get((type(op), c))
+            if nonempty is None:
+                return None
+            return t if nonempty else (not t)
+        if isinstance(x, ast.Call) and isinstance(x.func, ast.Name) and x.func.id == "bool" and len(x.args) == 1:
+            return self.truth(x.args[0])
         if isinstance(x, ast.Call) and isinstance(x.func, ast.Name) and x.func.id == "isinstance" and len(x.args) == 2:
             for m, v in self.items:
                 if isinstance(v, tuple) and v[0] == "inst" and m(x.args[0]) and v[1](x.args[1]):
@@ -83,14 +95,53 @@ class Facts:
         return None
 
     def edge_ok(self):
+        """Edge filter for CFG searches.  A test whose *subject* is an atom of the scenario but whose form cannot be
+        evaluated (say `reuse is True` when only the truthiness of `reuse` is fixed, or `type(x) is int` where the rule
+        knows `isinstance(x, int)`) keeps both branches and is remembered: a *witness* path that runs through such a test
+        proves nothing, see guard()."""
+        und = self.undecided = getattr(self, "undecided", {})
+
         def ok(n, m, label):
             if n.kind == "test" and label in ("T", "F") and n.ast is not None:
                 v = self.truth(n.ast)
                 if v is None:
+                    subj = _subject(n.ast)
+                    if subj is not None and any(mt(subj) for mt, _ in self.items):
+                        und[id(n)] = n
                     return True
                 return v == (label == "T")
             return True
         return ok
+
+    def guard(self, path):
+        """A violation witness that passes a test on a scenario atom which could not be evaluated is not a witness:
+        refuse (AnalysisError) rather than alarm on what may be a behaviour-preserving rewrite of the condition."""
+        if path:
+            for n in path:
+                if id(n) in getattr(self, "undecided", {}):
+                    raise AnalysisError(f"scenario: `{norm(n.ast)[:70]}` tests an atom of the scenario in a form this rule cannot evaluate")
+        return path
+
+    def find(self, g, src, dst, **kw):
+        """find_path under this scenario; the result is meant as a *violation witness* (guarded)."""
+        return self.guard(g.find_path(src, dst, edge_ok=self.edge_ok(), **kw))
+
+    def escape(self, g, src, through, **kw):
+        """escape_path under this scenario; the result is meant as a *violation witness* (guarded)."""
+        return self.guard(g.escape_path(src, through, edge_ok=self.edge_ok(), **kw))
+
+
+def _subject(x):
+    """The expression a test is about: `not S`, `S is None`, `S == c`, `len(S) > 0`, `isinstance(S, C)`, `S in xs` -> S."""
+    while isinstance(x, ast.UnaryOp) and isinstance(x.op, ast.Not):
+        x = x.operand
+    if isinstance(x, ast.Compare):
+        x = x.left
+    if isinstance(x, ast.Call) and isinstance(x.func, ast.Name) and x.func.id in ("len", "bool", "isinstance", "type", "callable") and x.args:
+        x = x.args[0]
+    if isinstance(x, (ast.Name, ast.Attribute, ast.Call, ast.Subscript)):
+        return x
+    return None
 
 
 def txt(s):
@@ -136,10 +187,10 @@ def _check_atoms(e, func, facts, evaluators, scenario):
 def must(e, R, rule, func, scenario, facts, target_pred, what, why, evaluators=()):
     g = e.cfg(func)
     _check_atoms(e, func, facts, evaluators, scenario)
-    ok_edge = Facts(facts, evaluators).edge_ok()
+    F = Facts(facts, evaluators)
     tg = set(_targets(g, target_pred))
-    reach = g.find_path(g.entry, lambda n: n in tg, use_exc=False, edge_ok=ok_edge) if tg else None
-    esc = g.escape_path(g.entry, lambda n: n in tg, use_exc=False, edge_ok=ok_edge) if tg else None
+    reach = g.find_path(g.entry, lambda n: n in tg, use_exc=False, edge_ok=F.edge_ok()) if tg else None
+    esc = F.escape(g, g.entry, lambda n: n in tg, use_exc=False) if tg else None
     ok = bool(tg) and reach is not None and esc is None
     R.check(ok, rule, f"{func.short}: when {scenario}, {what} on every path", func.short, f"[{scenario}] must: {what}",
             f"when {scenario}, {func.short} can finish without {what}" + ("" if tg else " (no such operation left)") + ": " + why,
@@ -151,9 +202,9 @@ def must(e, R, rule, func, scenario, facts, target_pred, what, why, evaluators=(
 def never(e, R, rule, func, scenario, facts, target_pred, what, why, avoid=(), evaluators=()):
     g = e.cfg(func)
     _check_atoms(e, func, facts, evaluators, scenario)
-    ok_edge = Facts(facts, evaluators).edge_ok()
+    F = Facts(facts, evaluators)
     tg = set(_targets(g, target_pred))
-    p = g.find_path(g.entry, lambda n: n in tg, avoid=avoid, use_exc=False, edge_ok=ok_edge) if tg else None
+    p = F.find(g, g.entry, lambda n: n in tg, avoid=avoid, use_exc=False) if tg else None
     R.check(p is None, rule, f"{func.short}: when {scenario}, never {what}", func.short, f"[{scenario}] never: {what}",
             f"when {scenario}, {func.short} can reach {what}: " + why, e.loc(func, p[-1].ast if p and p[-1].ast is not None else func.node) if p else None,
             g.fmt_path(p) if p else None)
@@ -268,15 +319,14 @@ def r_scn_worker(e, R):
     for h in hs:
         sets_none = lambda n: n.kind == "stmt" and isinstance(n.ast, ast.Assign) and any(isinstance(t, ast.Name) and t.id == tv for t in n.ast.targets) \
             and isinstance(n.ast.value, ast.Constant) and n.ast.value.value is None
-        ok_edge = Facts([(trylock, "T")]).edge_ok()
+        FT = Facts([(trylock, "T")])
         # only leave tests *outside* the try whose handler this is count (the in-try test is not reachable from the handler)
-        esc = g.find_path(h, lambda n: n in leave_tests, avoid=sets_none, use_exc=False, edge_ok=ok_edge)
-        reach = g.find_path(h, sets_none, use_exc=False, edge_ok=ok_edge)
+        esc = FT.find(g, h, lambda n: n in leave_tests, avoid=sets_none, use_exc=False)
+        reach = g.find_path(h, sets_none, use_exc=False, edge_ok=FT.edge_ok())
         R.check(esc is None and reach is not None, "R-SCN-WORKER", f"{w.short}: after an idle timeout with the management lock free, `{tv} = None` precedes the leave test",
                 w.short, f"{tv} = None", f"after an idle timeout the leave test reads a stale / unbound `{tv}`: the worker crashes (the pool breaks) or re-runs "
                 "its previous task instead of leaving", e.loc(w, h.ast), g.fmt_path(esc) if esc else None)
-        ok_edge_f = Facts([(trylock, "F")]).edge_ok()
-        p = g.find_path(h, lambda n: n in leave_tests or announce(n), use_exc=False, edge_ok=ok_edge_f, avoid=lambda n: n.kind == "join" and n.tag == "loop-head")
+        p = Facts([(trylock, "F")]).find(g, h, lambda n: n in leave_tests or announce(n), use_exc=False, avoid=lambda n: n.kind == "join" and n.tag == "loop-head")
         R.check(p is None, "R-SCN-WORKER", f"{w.short}: when the management lock is busy (workers are being spawned) the worker goes back to waiting", w.short,
                 "continue", "a worker leaves on idle timeout while the parent is spawning: the count of live workers is wrong when the spawn loop ends",
                 e.loc(w, h.ast), g.fmt_path(p) if p else None)
